@@ -42,7 +42,7 @@ CLAIMED = {
          'Every package of the product (control compression x data compression over none/gz/xz/bz2/lzma/zst, 4 control-tar entry lists, 3 paragraph models, 3 payloads, 5 extra-member placements, 2 member orders: 12 960 packages) is built by the harness (builder cross-checked against dpkg-deb on every run) and loaded with deb.Load; control fields, extensions, ar index and the full data tar listing must equal the model; all debian-binary / missing-member rejections are enumerated; packages built by the real dpkg-deb are loaded too; repeated loads must fall in one outcome class.',
          'Third-party decoders are exercised on well-formed streams only; map iteration orders are covered by 64 repeated loads per package on the plain build (explicit permutations need the instrumented build); xz/bz2 streams come from python3.',
          'DESIGN.md §3 C14, agent-notes/C14.md'),
- 'C16': ('fault_enumeration',
+ 'C16': ('model_checking',
          'exhaustive single-fault enumeration (every byte of the signed members and the signature, every decoy member position, every rename, role x keyring matrix) on real signed packages; soundness oracle',
          'Packages signed with a freshly generated key are loaded and verified by the real code under every single-byte substitution (2 values) of debian-binary, control, data and the signature member, every insertion position of decoy control.*/data.* members (other encoding, same name, attacker content), every signed-member / signature-member rename, the full role-present x role-asked x keyring matrix and 33 valid signatures over wrong byte strings. Oracle: Load and CheckDebsig both succeeding implies signer in keyring, role present, signature covering exactly the exposed members and exposed content equal to the signed model. Vacuity guard: the untampered package must verify.',
          'Forgeries needing more than one fault are out of scope (OpenPGP); map iteration orders for decoy variants are covered by 64 repetitions on the plain build; keys differ between runs (artefacts embed the public keys and package bytes).',
